@@ -82,6 +82,18 @@ type Conn struct {
 	consumed         int64
 	frameLen         int64 // total length of the first frame; 0 = not known yet, -1 = malformed length
 	wroteOnce        bool
+	// framing of the broker→client stream, across Write calls: a Write that ends in the middle
+	// of a packet ("partial write") is harmless by itself but lets the writes of the broker's
+	// other goroutines land inside that packet. onPartial (persistent) runs after such a Write,
+	// outside the lock; the Write then returns only once another Write has arrived on the
+	// connection or 400 ms of real time have passed — the natural schedule in which another
+	// goroutine gets the connection between two pieces, forced. Never runs while every packet is
+	// handed over in one Write.
+	ohead         []byte
+	oleft         int64
+	writeSeq      int64
+	onPartial     func()
+	PartialWrites int64
 }
 
 func NewConn(name string, clk *Clock, activity *int64) *Conn {
@@ -179,7 +191,63 @@ func (c *Conn) Write(p []byte) (int, error) {
 	}
 	c.fromBroker = append(c.fromBroker, p...)
 	c.bump()
+	c.writeSeq++
+	c.cond.Broadcast()
+	if c.noteWritten(p) && c.onPartial != nil {
+		f, seq := c.onPartial, c.writeSeq
+		c.PartialWrites++
+		c.mu.Unlock()
+		f()
+		c.mu.Lock()
+		stop := time.AfterFunc(400*time.Millisecond, func() {
+			c.mu.Lock()
+			c.cond.Broadcast()
+			c.mu.Unlock()
+		})
+		for until := time.Now().Add(400 * time.Millisecond); c.writeSeq == seq && !c.brokerClosed && !c.clientClosed && time.Now().Before(until); {
+			c.cond.Wait()
+		}
+		stop.Stop()
+	}
 	return len(p), nil
+}
+
+// OnPartialWrite installs the hook described at the onPartial field.
+func (c *Conn) OnPartialWrite(f func()) {
+	c.mu.Lock()
+	c.onPartial = f
+	c.mu.Unlock()
+}
+
+// noteWritten advances the framing of the broker→client stream and reports whether the stream
+// now stands in the middle of a packet (c.mu held).
+func (c *Conn) noteWritten(b []byte) bool {
+	for len(b) > 0 {
+		if c.oleft > 0 {
+			n := int64(len(b))
+			if n > c.oleft {
+				n = c.oleft
+			}
+			c.oleft -= n
+			b = b[n:]
+			continue
+		}
+		c.ohead = append(c.ohead, b[0])
+		b = b[1:]
+		if len(c.ohead) >= 2 {
+			last := c.ohead[len(c.ohead)-1]
+			if last&0x80 == 0 || len(c.ohead) == 5 {
+				rem, mult := int64(0), int64(1)
+				for _, x := range c.ohead[1:] {
+					rem += int64(x&0x7f) * mult
+					mult *= 128
+				}
+				c.oleft = rem
+				c.ohead = c.ohead[:0]
+			}
+		}
+	}
+	return c.oleft > 0 || len(c.ohead) > 0
 }
 
 // noteConsumed tracks the framing of the first packet (c.mu held).
